@@ -14,9 +14,9 @@ p=[x for x in p if x['id']==i][0]
 prop=f"{p['id']} - {p['title']}\n\nSTATEMENT: {p['statement']}\n\nQUANTIFIER: {p['quantifier']['text']}\n"
 import os
 if os.environ.get('WITH_ANCHORS'):
-    a=p.get('anchors',{})
-    prop+="\nCODE THE PROPERTY IS ANCHORED IN (files): "+", ".join(a.get('files',[]))+"\n"
-    prop+="MECHANISMS: "+"; ".join(f"{m['name']} ({m['where']})" for m in a.get('mechanism',[]))+"\n"
+    anch=p.get('anchors',{})
+    prop+="\nCODE THE PROPERTY IS ANCHORED IN (files): "+", ".join(anch.get('files',[]))+"\n"
+    prop+="MECHANISMS: "+"; ".join(f"{m['name']} ({m['where']})" for m in anch.get('mechanism',[]))+"\n"
 avoid=''
 t=open('/verif/tools/mutant_prompt.tmpl').read()
 t=t.replace('__WT__',f'/tmp/wt/{i}').replace('__ID__',i).replace('__PROP__',prop).replace('__A__',a).replace('__B__',b).replace('__AVOID__',avoid)
